@@ -13,7 +13,7 @@ Extraction "model.ml"
   Z.add Z.mul Z.sub Z.opp Z.div Z.modulo Z.ltb Z.eqb Z.of_nat Z.to_nat Z.of_N Pos.succ
   b2z z2b
   gen_encode gen_size gen_decode_top gen_decode_keep_top default_of resolve ttype_of_ty
-  gen_decode_async_top own_decode_top own_decode_keep_top heap_val owns_heap owns_heap_keep
+  gen_decode_async_top own_decode_top own_decode_keep_top heap_val owns_heap owns_heap_keep own_message_top bytes_val
   default_val_lit lit_value_top well_typed_lit pclass_top class_free_schema lits_typed const_value rust_default
   expected_default proj item_cty erase wf_schema elems_ok
   view viewk reenc read_val write_val flat.
